@@ -149,11 +149,15 @@ NUCS = {"fuel": ["U235", "U238"], "clad": ["FE"], "duct": ["FE"], "intercoolant"
 ALLNUCS = ["U235", "U238", "FE", "NA"]
 
 
-def fill_densities(ctx, a, tag):
+def fill_densities(ctx, a, tag, extra=None):
+    """extra = (block index, component name, nuclide): a nuclide held by ONE source block only (and unknown to the
+    destination assembly), e.g. the boron of an absorber block above a fuel block"""
     for k, b in enumerate(a):
         for c in b:
             c.p.numberDensities = {nuc: ctx.real("n%s%d_%s_%s" % (tag, k, c.name, nuc), 0.0, 10.0)
                                    for nuc in NUCS.get(c.name, [])}
+            if extra and extra[0] == k and extra[1] == c.name:
+                c.p.numberDensities[extra[2]] = ctx.real("n%s%d_%s_%s" % (tag, k, c.name, extra[2]), 0.0, 10.0)
 
 
 def _slack(ctx, sign):
@@ -184,11 +188,14 @@ def atoms(a, nuc):
                        "heights in [0.1,1000] cm, all number densities in [0,10] symbolic (4 nuclides over 4 "
                        "components); every interleaving/coincidence of the two meshes is a solver path; quick "
                        "2x2, 3x2, 2x3; thorough 3x3", stubs=STUBS, qtimeout_ms=30000,
-         instances={"quick": [dict(ns=2, nd=2), dict(ns=3, nd=2), dict(ns=2, nd=3)],
-                    "thorough": [dict(ns=3, nd=2), dict(ns=2, nd=3), dict(ns=3, nd=3)]})
-def remesh_conserves_atoms(ctx, ns, nd):
+         instances={"quick": [dict(ns=2, nd=2), dict(ns=3, nd=2), dict(ns=2, nd=3),
+                              dict(ns=2, nd=2, extra=(1, "clad", "B10")), dict(ns=2, nd=2, extra=(0, "fuel", "PU239"))],
+                    "thorough": [dict(ns=3, nd=2), dict(ns=2, nd=3), dict(ns=3, nd=3),
+                                 dict(ns=3, nd=2, extra=(2, "clad", "B10")), dict(ns=2, nd=3, extra=(1, "clad", "B10"))]})
+def remesh_conserves_atoms(ctx, ns, nd, extra=None):
     src, hs = sym_assembly(ctx, ns, "s")
-    fill_densities(ctx, src, "s")
+    fill_densities(ctx, src, "s", extra)
+    ALLNUCS = globals()["ALLNUCS"] + ([extra[2]] if extra else [])
     H = sum(hs)
     dst, hd = sym_assembly(ctx, nd, "d", heights=dest_mesh(ctx, H, nd))
     ctx.check_close("destination spans the same height", dst[-1].p.ztop, src[-1].p.ztop, scale=H)
